@@ -65,6 +65,53 @@ func NearCurvePoints(next func(n int) []byte, perClass int) []NearPoint {
 			made++
 		}
 	}
+	// the SAME XOR difference in two limbs (an accumulator that adds or XORs the limb differences instead of OR-ing
+	// them sees them cancel: 2^63 + 2^63 = 0 mod 2^64, d ^ d = 0)
+	gen2 := func(i, j int, mont bool, d uint64) {
+		for made, tries := 0, 0; made < perClass && tries < 400; tries++ {
+			x := new(big.Int).SetBytes(next(32))
+			x.Mod(x, SM2P)
+			m := rhsOf(x)
+			if mont {
+				m.Mul(m, R).Mod(m, SM2P)
+			}
+			dd := d
+			if dd == 0 {
+				dd = new(big.Int).SetBytes(next(8)).Uint64() | 1
+			}
+			mask := new(big.Int).Lsh(new(big.Int).SetUint64(dd), uint(64*i))
+			mask.Or(mask, new(big.Int).Lsh(new(big.Int).SetUint64(dd), uint(64*j)))
+			m2 := new(big.Int).Xor(m, mask)
+			if m2.Cmp(SM2P) >= 0 {
+				continue
+			}
+			v := m2
+			if mont {
+				v = new(big.Int).Mul(m2, Rinv)
+				v.Mod(v, SM2P)
+			}
+			y := SqrtP(v)
+			if y == nil || OnCurve(x, y) {
+				continue
+			}
+			rep := "plain"
+			if mont {
+				rep = "montgomery"
+			}
+			kind := "random-difference"
+			if d == 1<<63 {
+				kind = "bit-63"
+			}
+			out = append(out, NearPoint{x, y, fmt.Sprintf("curve-equation-defect-%s-equal-in-%s-limbs-%d-and-%d", kind, rep, i, j)})
+			made++
+		}
+	}
+	for _, mont := range []bool{true, false} {
+		for _, pr := range [][2]int{{0, 1}, {0, 3}, {1, 2}, {2, 3}} {
+			gen2(pr[0], pr[1], mont, 1<<63)
+			gen2(pr[0], pr[1], mont, 0)
+		}
+	}
 	for _, mont := range []bool{true, false} {
 		for limb := 0; limb < 4; limb++ {
 			gen(64, limb, mont)
@@ -74,4 +121,58 @@ func NearCurvePoints(next func(n int) []byte, perClass int) []NearPoint {
 		}
 	}
 	return out
+}
+
+// Alias is a NON-canonical encoding of a curve point: a coordinate written as value + p (it still fits 32 bytes).
+// Decoders must refuse it. The classes are chosen so that the distance from the bound has a sparse pattern (a range
+// check done word-wise with a narrowed accumulator sees "equal"): x0 + p with x0 + 1 = k*2^32, 2^j, sums of 2^(64i+32);
+// and y + p for the tiny-y points of the fixture.
+type Alias struct {
+	X, Y  []byte // 32-byte encodings as handed to the library
+	P     Pt     // the point the alias would stand for
+	Class string
+}
+
+func SparseAliases() ([]Alias, error) {
+	var out []Alias
+	var deltas []*big.Int
+	var names []string
+	add := func(d *big.Int, n string) { deltas, names = append(deltas, d), append(names, n) }
+	for k := int64(1); k <= 24; k++ {
+		add(new(big.Int).Lsh(big.NewInt(k), 32), "k*2^32")
+		add(new(big.Int).Lsh(big.NewInt(k), 16), "k*2^16")
+		add(new(big.Int).Lsh(big.NewInt(k), 48), "k*2^48")
+	}
+	for j := uint(1); j < 223; j += 3 {
+		add(new(big.Int).Lsh(big1, j), "2^j")
+	}
+	s := new(big.Int)
+	for i := uint(0); i < 3; i++ {
+		s = new(big.Int).Add(s, new(big.Int).Lsh(big1, 64*i+32))
+		add(new(big.Int).Set(s), "sum-of-2^(64i+32)")
+		add(new(big.Int).Lsh(big1, 64*i+63), "2^(64i+63)")
+	}
+	lim := new(big.Int).Sub(new(big.Int).Lsh(big1, 256), SM2P)
+	for i, d := range deltas {
+		x0 := new(big.Int).Sub(d, big1)
+		if x0.Cmp(lim) >= 0 {
+			continue
+		}
+		if p, ok := LiftX(x0); ok {
+			out = append(out, Alias{B32(new(big.Int).Add(x0, SM2P)), B32(p.Y), p, "x+p:x+1=" + names[i]})
+		}
+	}
+	pts, cls, err := SpecialPoints()
+	if err != nil {
+		return nil, err
+	}
+	for i, p := range pts {
+		if cls[i] == "y-tiny" && p.Y.Cmp(lim) < 0 {
+			out = append(out, Alias{B32(p.X), B32(new(big.Int).Add(p.Y, SM2P)), p, "y+p:y-tiny"})
+		}
+		if cls[i] == "x-tiny" && p.X.Cmp(lim) < 0 {
+			out = append(out, Alias{B32(new(big.Int).Add(p.X, SM2P)), B32(p.Y), p, "x+p:x-tiny"})
+		}
+	}
+	return out, nil
 }
